@@ -73,13 +73,19 @@ PROPS = {
  "C17": {"level": "proof", "technique": "the same contracts verified under -C debug-assertions=on and =off; overflow and debug-only assertions are obligations",
          "claim": "Unbounded proof that no debug_assert!/cfg!(debug_assertions) arm can fire, that both arms meet one contract, and that no usize computation can overflow, so the two profiles cannot diverge in the raw layer. " + V,
          "note": "hashbrown's own debug assertions are modelled as preconditions; the reflect_remove ordering assertion is not visible to Verus"},
+ "C13": {"level": "proof", "technique": "Verus contracts on the HashSet element operations (one-line delegations) over the map/raw-layer contracts they rest on",
+         "claim": "Unbounded proof that HashSet::{insert, replace, remove, take, clear, len, is_empty, reserve, try_reserve, shrink_to*, get_or_insert} have the set effect on the underlying table (cardinality changes by exactly the reported result, contents conserved, invariants kept), resting on the C01 clauses of the raw and map functions they delegate to (those clauses also carry the label C13). " + V,
+         "note": "set algebra (union/intersection/difference/symmetric_difference, is_subset/is_disjoint, ==, operators) is built from iterator adapters, outside Verus' subset: not decided here",
+         "not_decided": ["union / intersection / difference / symmetric_difference / is_subset / is_superset / is_disjoint / == and the operator forms (iterator adapters)", "membership results (values behind bucket pointers)"]},
+ "C14": {"level": "proof", "technique": "Verus: every read-only observer of the raw layer (len, find/get, iter, size_hint) is specified as a function of the abstract contents only",
+         "claim": "Unbounded proof that len() is the sum over both tables, that a lookup consults the main table and then the old table, that iter() covers exactly the occupied buckets of both tables and that the cached iterator agrees with the old table after every operation -- i.e. what the read-only API reports does not depend on which table holds an element or on how the state was reached. " + V,
+         "note": "PartialEq::eq and Debug use iterator adapters (Iterator::all, debug_map().entries()) and are outside Verus' subset; dependence on hasher state is not decided",
+         "not_decided": ["PartialEq::eq / Debug bodies", "independence from hasher state", "reflexivity/symmetry/transitivity of =="]},
 }
 for _p in PROPS.values():
     _p.setdefault("assumptions", []); _p.setdefault("bounded", []); _p.setdefault("not_decided", [])
 
 NOT_APPLICABLE = {
- "C13": "check not built yet: set operations delegate to the map layer; algebra iterators use iterator adapters outside Verus' subset",
- "C14": "check not built yet: PartialEq uses Iterator::all (iterator adapters are rejected by Verus)",
  "C15": "rayon work-splitting schedules: Verus has no model of rayon's consumer/reducer protocol or of threads, Kani has no thread support; no contract within reach can express 'never handed to two workers'",
  "C16": "serde's Serializer/Deserializer/MapAccess are unspecified external generic traits; stating a contract for them would be inventing a model of serde; what griddle contributes reduces to C08 and C01",
 }
